@@ -360,6 +360,15 @@ def make_agent_class():
             self.calls.append(("closed", market.market_id, pt))
             _dispatch("strategy_closed", self, market, market_book)
 
+        def check_sports_data(self, market, sports_data):
+            self.calls.append(("sports_check", market.market_id, sports_data.publish_time_epoch))
+            self.run._maybe_raise(self, "sports_check", market)
+            return True
+
+        def process_sports_data(self, market, sports_data):
+            self.calls.append(("sports", market.market_id, sports_data.publish_time_epoch))
+            self.run._maybe_raise(self, "sports", market)
+
         def process_raw_data(self, clk, publish_time, datum):
             self.calls.append(("raw", datum.get("id"), publish_time))
             self.run._maybe_raise(self, "raw", None)
